@@ -14,7 +14,7 @@
 From Verif Require Export Base.
 Open Scope Z_scope.
 
-Definition cell := Z.                       (* id of an expression / column; < 0 : a single-Or condition *)
+Notation cell := Z (only parsing).          (* id of an expression / column; < 0 : a single-Or condition *)
 Definition is_or (c : cell) : bool := c <? 0.
 
 (* which slice of the statement an array was allocated for (= its Go element type) *)
@@ -27,10 +27,10 @@ Definition field_eqb (a b : field) : bool :=
   end.
 Definition all_fields := [FWhere; FHaving; FGroup; FOrder; FRet; FSel; FOmit; FJoins; FScopes; FFromj].
 
-Definition arr := (field * list cell)%type.
-Definition heap := list arr.
+Notation arr := (field * list Z)%type (only parsing).
+Notation heap := (list (field * list Z)) (only parsing).
 Inductive slice := SNil | SArr (l n c : nat).       (* nil | (backing array, len, cap) *)
-Definition wset := list (nat * nat).                (* written (array, index) cells *)
+Notation wset := (list (nat * nat)) (only parsing).   (* written (array, index) cells *)
 
 Definition cells_of (h : heap) (l : nat) : list cell := snd (nth l h (FWhere, [])).
 Definition rd (h : heap) (s : slice) : list cell :=
@@ -94,9 +94,7 @@ Definition h_append (f : field) (s : slice) (xs : list cell) : cmd slice :=
   | [] => ret s
   | _ =>
     match s with
-    | SNil =>
-        let c := grow f 0 (length xs) in
-        l <- alloc f (xs ++ pad (c - length xs)) ;; ret (SArr l (length xs) (Nat.max c (length xs)))
+    | SNil => h_user f xs (grow f 0 (length xs))
     | SArr l n c =>
         if (n + length xs <=? c)%nat then wr_list l n xs ;;; ret (SArr l (n + length xs) c)
         else
@@ -197,8 +195,7 @@ Definition m_where (s : mstmt) (conds : slice) : cmd mstmt :=
   | old =>
       new <- rdc conds ;;
       if md FWhere then w <- h_append FWhere old new ;; ret (set_sl s FWhere w)
-      else o <- rdc old ;; l <- alloc FWhere (o ++ new) ;;
-           ret (set_sl s FWhere (SArr l (length (o ++ new)) (length (o ++ new))))
+      else o <- rdc old ;; w <- h_lit FWhere (o ++ new) ;; ret (set_sl s FWhere w)   (* make(len+len); copy; copy *)
   end.
 (* clause/order_by.go OrderBy.MergeClause (Reorder on the first column only) *)
 Definition m_order (s : mstmt) (cols : slice) (reorder : bool) : cmd mstmt :=
@@ -383,12 +380,9 @@ Definition finish (s : mstmt) (f : fin) : cmd (mstmt * (list Z * list Z)) :=
   (* processor.Execute: scopes *)
   s2 <- exec_scopes s1 ;;
   (* BuildQuerySQL: fromClause.Joins = append(fromClause.Joins, join) per statement join *)
+  (* (with no statement joins the loop appends nothing: the guard len(Joins)!=0||len(from.Joins)!=0 is not needed) *)
   s3 <- (if is_query f then
-           match slen (sl s2 FJoins), slen (sl s2 FFromj) with
-           | O, O => ret s2
-           | _, _ => js <- rdc (sl s2 FJoins) ;; fj <- h_append_each FFromj (sl s2 FFromj) js ;;
-                     ret (set_sl s2 FFromj fj)
-           end
+           js <- rdc (sl s2 FJoins) ;; fj <- h_append_each FFromj (sl s2 FFromj) js ;; ret (set_sl s2 FFromj fj)
          else ret s2) ;;
   (* Statement.Build: Where.Build swaps in place; GroupBy.Build builds Having through Where.Build *)
   h_swap (sl s3 FWhere) ;;;
@@ -535,12 +529,7 @@ Definition p_prefin (p : pstmt) (f : fin) : pstmt :=
             | _ => p
             end in
   let p2 := fold_left (fun q x => p_where q [x]) (pcopy (pl p1 FScopes)) (pset p1 FScopes None) in
-  if is_query f then
-    match pcopy (pl p2 FJoins), pcopy (pl p2 FFromj) with
-    | [], [] => p2
-    | js, _ => pset p2 FFromj (papp (pl p2 FFromj) js)
-    end
-  else p2.
+  if is_query f then pset p2 FFromj (papp (pl p2 FFromj) (pcopy (pl p2 FJoins))) else p2.
 Definition pnorm (p : pstmt) : pstmt :=
   mk_p (fun f => match f with FWhere | FHaving => option_map wnorm (pl p f) | _ => pl p f end) (pk p).
 Definition p_fin (p : pstmt) (f : fin) : pstmt :=
